@@ -274,6 +274,16 @@ def gen_torrent(r):
             continue
         info[k] = gen_value(r, r.choice([0, 1, 2, 3, 5]))
         tags.append("unknown-in-info" + ("-nonutf8key" if not is_utf8(k) else ""))
+    # key names that mean something at ANOTHER level: `info` (and top-level names) inside the info dictionary, info-level names
+    # at the top (added after seeded change C04-12: a helper that looked for an `info` entry once more, inside info)
+    if r.random() < 0.15:
+        k = r.choice([b"info", b"info", b"announce", b"creation date", b"comment"])
+        info[k] = r.choice([{b"name": b"decoy"}, 7, b"decoy", gen_value(r, 2)])
+        tags.append("level-crossing-key-in-info")
+    if r.random() < 0.10:
+        k = r.choice([b"name", b"pieces", b"piece length", b"length", b"files", b"private"])
+        top[k] = r.choice([b"decoy", 1, gen_value(r, 2)])
+        tags.append("level-crossing-key-at-top")
     for _ in range(n_top):
         k = gen_key(r, p_nonutf)
         if k in KNOWN_TOP:
@@ -315,6 +325,10 @@ def hand_cases():
     add("unknown-nested", {b"info": ext(base, {b"file tree": {b"a": {b"": {b"length": 5, b"pieces root": b"\x01" * 32}}}, b"meta version": 2})})
     add("unknown-edges", {b"info": ext(base, {b"max": I64_MAX, b"min": I64_MIN, b"z": [[], {}, b"", 0]})})
     add("unknown-around-info", {b"inf": 1, b"info": base, b"info\x00": {b"info": {b"name": b"decoy"}}, b"infp": [b"4:info"]})
+    add("info-key-inside-info-dict", {b"info": ext(base, {b"info": {b"name": b"decoy"}})})
+    add("info-key-inside-info-int", {b"info": ext(base, {b"info": 7})})
+    add("info-key-inside-info-bytes", {b"info": ext(base, {b"info": b"d4:name5:decoye"})})
+    add("info-key-inside-info-twice", {b"info": ext(base, {b"info": {b"info": {b"name": b"decoy"}}})})
     add("decoy-before", {b"a": {b"info": {b"name": b"decoy"}}, b"b": b"4:infod4:name5:decoye", b"info": base})
     add("trailing-junk", {b"info": base}, b"4:infod4:name5:decoyee")
     add("trailing-newline", {b"announce": b"http://t/a", b"info": base}, b"\n")
